@@ -102,10 +102,14 @@ def cross_script_section(ctx):
     POOL = {"latn": [("A", 0x41), ("V", 0x56)], "cyrl": [("a-cy", 0x430), ("be-cy", 0x431)], "grek": [("alpha", 0x3B1), ("beta", 0x3B2)],
             "armn": [("ayb-arm", 0x561), ("ben-arm", 0x562)], "geor": [("an-georgian", 0x10D0), ("ban-georgian", 0x10D1)],
             # OpenType tags shorter than four letters are space-padded ("lao ", "nko " is right-to-left and left out here)
-            "lao ": [("ko-lao", 0xE81), ("khosung-lao", 0xE82)], "vai ": [("e-vai", 0xA500), ("een-vai", 0xA501)]}
+            "lao ": [("ko-lao", 0xE81), ("khosung-lao", 0xE82)], "vai ": [("e-vai", 0xA500), ("een-vai", 0xA501)],
+            # scripts encoded beyond the Basic Multilingual Plane (only the format-12 cmap subtables carry their code points)
+            "dsrt": [("longi-deseret", 0x10400), ("longe-deseret", 0x10401)], "osge": [("a-osage", 0x104B0), ("ai-osage", 0x104B1)]}
     LANGS = {"latn": "TRK ", "cyrl": "SRB ", "grek": "PGR ", "lao ": "LAO ", "vai ": "VAI "}
     for i in range(ctx.budget(24, 120)):
         tags = rng.sample(list(POOL), rng.randint(3, 5))
+        if i % 4 == 1 and not {"dsrt", "osge"} & set(tags):
+            tags[-1] = ["dsrt", "osge"][(i // 4) % 2]        # every fourth font has a supplementary-plane script
         script_of, glyphs = {}, []
         for t in tags:
             for n, u in POOL[t]:
